@@ -286,7 +286,9 @@ def run_one(t):
             w.link.rate = (1, 2)
             w.link.budget = 1 + t.choose(2, "flips")
         elif sc == "fs_reject":
-            ops = [("write_data",), ("create_file", "truncate_file"), ("write_data", "create_file", "truncate_file")][t.choose(3, "fs ops")]
+            # (last variant: the destination file vanishes - calculate_checksum raises FileNotFoundError)
+            ops = [("write_data",), ("create_file", "truncate_file"), ("write_data", "create_file", "truncate_file"),
+                   ("calculate_checksum",)][t.choose(4, "fs ops")]
             if t.choose(3, "lose first metadata") == 2:
                 # the rejection then hits the RE-REQUESTED Metadata PDU (acknowledged mode), possibly after the EOF
                 lost = {"n": 0}
@@ -308,6 +310,23 @@ def run_one(t):
                         return PermissionError(str(path))
                 return None
             w.fs_fault = decide
+            if ops == ("calculate_checksum",):
+                def decide_x(who, op, path, *extra):
+                    if who == "b" and op == "calculate_checksum":
+                        if first["n"] > 1:
+                            first["n"] -= 1
+                            return None
+                        w.link.fired["dst_file_vanished"] = w.link.fired.get("dst_file_vanished", 0) + 1
+                        return FileNotFoundError(str(path))
+                    return None
+                w.fs_fault_x = decide_x
+        # timer / PDU arrival races: in a fifth of the runs both entities run a main loop with a period around the timer
+        # intervals (awaited PDUs are handed over in the call that also finds the timer expired)
+        if t.choose(5, "ticked pacing") == 4:
+            from props.pops import ticked_pacing
+
+            ticked_pacing(w, t, intervals=[x for x in (cfg.ack_s, cfg.nak_s, cfg.check_s_recv, cfg.check_s_send) if x < 50])
+            unit += 2 * w.tick_ms
         w.max_events = 20000
         w.max_t = 10_000_000
         _start(ctx, None)
